@@ -200,8 +200,15 @@ class LazyEvaluatedKernelTensor(LinearOperator):
         else:
             dim_index = _noop_index
 
+        noop_batch_index = len(batch_indices) == 0 or all(ind == slice(None, None, None) for ind in batch_indices)
+
         # Get the indices of x1 and x2 that matter for the kernel
         # Call x1[*batch_indices, row_index, :]
+        # If we are explicitly indexing batch dims, x1 must first be expanded (a view, no copy) to the broadcasted
+        # batch shape: indexing a not-yet-broadcasted dimension of size 1 with a slice does not raise an error,
+        # it silently selects a different (possibly empty) set of batch elements
+        if not noop_batch_index and x1.shape[:-2] != batch_shape:
+            x1 = x1.expand(*batch_shape, *x1.shape[-2:])
         try:
             x1 = x1[(*batch_indices, row_index, dim_index)]
         # We're going to handle multi-batch indexing with a try-catch loop
@@ -212,6 +219,8 @@ class LazyEvaluatedKernelTensor(LinearOperator):
             x1 = x1[(*batch_indices, row_index, dim_index)]
 
         # Call x2[*batch_indices, col_index, :]
+        if not noop_batch_index and x2.shape[:-2] != batch_shape:
+            x2 = x2.expand(*batch_shape, *x2.shape[-2:])
         try:
             x2 = x2[(*batch_indices, col_index, dim_index)]
         # We're going to handle multi-batch indexing with a try-catch loop
@@ -221,17 +230,15 @@ class LazyEvaluatedKernelTensor(LinearOperator):
             x2 = x2.expand(*batch_shape, *x2.shape[-2:])
             x2 = x2[(*batch_indices, col_index, dim_index)]
 
-        if len(batch_indices) == 0 or all(ind == slice(None, None, None) for ind in batch_indices):
+        if noop_batch_index:
             new_kernel = self.kernel  # Avoid unnecessary copying when we aren't explicitly indexing batch dims
         else:
-            try:
-                new_kernel = self.kernel.__getitem__(batch_indices)
-            # We're going to handle multi-batch indexing with a try-catch loop
-            # This way - in the default case, we can avoid doing expansions of self.kernel which can be
-            # costly in terms of time
-            except IndexError:
-                expanded_kernel = self.kernel.expand_batch(batch_shape)
-                new_kernel = expanded_kernel.__getitem__(batch_indices)
+            kernel = self.kernel
+            # Same as for x1 and x2: the parameters of a batched kernel must have the broadcasted batch shape
+            # before they are indexed (a non-batched kernel is shared by all batch elements and stays as it is)
+            if len(kernel.batch_shape) and kernel.batch_shape != batch_shape:
+                kernel = kernel.expand_batch(batch_shape)
+            new_kernel = kernel.__getitem__(batch_indices)
 
         # Now construct a kernel with those indices
         return self.__class__(
